@@ -88,7 +88,8 @@ def sweep(ctx, rep, model, focus):
         if focus == "C20" and si % 4 == 2:
             # cell indices with four and five digits (a fine level far from the index origin): FAB header lines of more
             # than 100 bytes; only for the read-after-validation sweep (coordinate validation is not part of it)
-            spec["idx_shift"] = [1000, 12345][si % 8 == 2]
+            # (six-digit indices: a difference of one is below numpy's default relative tolerance)
+            spec["idx_shift"] = [1000, 123456][si % 8 == 2]
         pristine = ctx.newdir("c04p_")
         plotgen.materialize(spec, pristine)
         ptree = tastelib.snapshot(pristine)
